@@ -278,7 +278,7 @@ def c18Step (st : C18St) (op impl : String) : C18St × String × String :=
           else acc
         -- after a snapshot whose payload is BEHIND its metadata index the log's entries in between are
         -- lost by design: later batches run on states the one-at-a-time run never saw — not predicted
-        let line := if (acc.inexact || acc.st.refFinal.isNone) && (acc.out.contains "B?" || acc.out.contains "S?") then "-" else " ".intercalate acc.out
+        let line := if acc.inexact || (acc.st.refFinal.isNone && (acc.out.contains "B?" || acc.out.contains "S?")) then "-" else " ".intercalate acc.out
         (acc.st, line, acc.verdict)
   | ["contract"] =>
     -- the handlers' contract (`WK.C18.MutateContract`), judged per command on the real handlers:
